@@ -270,6 +270,10 @@ func verifyFunction(prog *Program, db *SpecDB, con *Contract) (res *FuncResult) 
 			if label == "" {
 				label = fmt.Sprint(i)
 			}
+			if c.Assumed {
+				// ghost-linking clause: assumed at call sites, not an obligation of the body
+				continue
+			}
 			goal := f.evalClause(post, c, con)
 			vc.addObl(&Obligation{Name: fmt.Sprintf("%s/ensures[%s]/return#%d", con.Name, label, k), Kind: "ensures",
 				Props: c.Props, PC: r.st.pc, Goal: goal, Src: c.Src})
